@@ -103,14 +103,14 @@ TIED = {
     "C01": "TRANSLATOR-TIED: ws2d.py is translated statement by statement (Hdc/Gen/Ws2d.lean) and proved equal to the model for every n >= 3 (gen_ws2d_eq_model), hence to satisfy the normal equations.",
     "C02": "TRANSLATOR-TIED: ws2dgu / ws2dpgu sources (NumPy vector idioms) proved equal to the models gu / pgu incl. the pass-through branch (gen_ws2dgu_eq_model, gen_ws2dpgu_eq_model, _none).",
     "C03": "TRANSLATOR-TIED: ws2dgu / ws2dpgu sources proved equal to the models gu / pgu (10 passes, early break, final fit with the last weights).",
-    "C04": "TRANSLATOR-TIED: ws2doptv, ws2doptvp, _ws2doptvp, ws2doptvplc sources proved equal to optv / optvp / optvpCore / optvplc (warm start across lambdas, grid choice by lc read from the source).",
+    "C04": "TRANSLATOR-TIED: ws2doptv, ws2doptvp, _ws2doptvp, ws2doptvplc sources proved equal to optv / optvp / optvpCore / optvplc (warm start across lambdas, grid choice by lc read from the source); ws2doptvplc_tyx per pixel (column of the cube and lambda = optvplc of the pixel's series with the grid chosen by the model autocorrelation; prange read as range, row independence by C12).",
     "C05": "TRANSLATOR-TIED: ws2dwcv / ws2dwcvp sources (whole functions incl. the robust loop and the unbound-local outcome) proved equal to wcv / wcvp modulo np.median/max/min = the model's definitions.",
     "C07": "TRANSLATOR-TIED: brentq (every f, every input), gammafit (with the brentq call and its lambda read from the source) and gammastd sources proved equal to their models.",
     "C08": "TRANSLATOR-TIED: gammastd / gammastd_yxt sources proved equal to the models; instrumented translations (Gen/Safe*.lean) prove that brentq and gammafit never divide a scalar by zero (no hypothesis, every f) and gammastd never indexes out of range / divides by zero for a genuine calibration window (Numba's error model would raise ZeroDivisionError).",
     "C09": "TRANSLATOR-TIED: gammastd_grp source proved equal to the gather / per-group gammastd / scatter model (gen_gammastd_grp_eq_model).",
     "C10": "TRANSLATOR-TIED: mk_score, mk_variance_s, mk_z_score, mk_p_value, mk_sens_slope, mann_kendall_trend_1d sources proved equal to the models (np.unique / np.nanmedian = the model's unique / median; erf, sqrt, ndtri(0.975) parameters).",
-    "C14": "TRANSLATOR-TIED: instrumented translations (flag raised before every subscript outside Python's accepted range and every scalar division by zero) of rolling_sum, lroo, mean_grp, do_mean, autocorr_1d_int, mk_score, ws2d, tinterpolate, ws2doptv: first component = the plain translation, flag false under the stated contract (for rolling_sum: no condition on the window; exact characterisations safe_*_flag).",
-    "C15": "TRANSLATOR-TIED: autocorr_1d_int accumulator loop and the whole autocorr_1d_float source proved equal to the model.",
+    "C14": "TRANSLATOR-TIED: instrumented translations (flag raised before every subscript outside Python's accepted range and every scalar division by zero) of rolling_sum, lroo, mean_grp, do_mean, autocorr_1d_int, mk_score, ws2d, tinterpolate, ws2doptv: first component = the plain translation, flag false under the stated contract (for rolling_sum: no condition on the window; exact characterisations safe_*_flag); instrumented twins also for ws2dgu / ws2dpgu (need 0 <= lambda, 0 < p < 1), ws2doptvp / _ws2doptvp, mk_sens_slope / mk_variance_s (no hypothesis), gammastd_grp / gammastd_yxt, ws2dwcv (non-robust); ws2doptvplc and ws2dwcvp: first-component theorem only.",
+    "C15": "TRANSLATOR-TIED: the whole autocorr_1d_int and autocorr_1d_float sources and the autocorr_1d dispatcher (specialised per argument type as Numba does) proved equal to the model.",
     "C16": "TRANSLATOR-TIED: do_mean source (four loops, flattened n-d indexing) proved equal to zonalMean; exactness of the float64 accumulation stated with its range (sum of |valid cells| per zone <= 2^53, GenKDoMeanB).",
     "C17": "TRANSLATOR-TIED: rolling_sum and mean_grp sources proved equal to the models; rounding-aware variant (every store into the float32 output wrapped by a rounding parameter) proved equal to rollingSumR and exact iff window * max|x| is within the format's exact range (C17round: int16 data exact for windows <= 512).",
     "C18": "TRANSLATOR-TIED: lroo source proved equal to the model.",
